@@ -455,7 +455,12 @@ func (c *Compiler) getModuleAndReference(m, n parse.Node, targetType parse.NodeT
 		name = nameparts[1]
 	}
 
-	reference := targetModule.LookupChild(targetType, name)
+	var reference parse.Node
+	if targetType == parse.NodeFeature && targetModule != nil {
+		targetModule, reference = c.lookupFeature(targetModule, name)
+	} else {
+		reference = targetModule.LookupChild(targetType, name)
+	}
 	if reference == nil {
 		if !c.skipUnknown {
 			// Feature not found in specified module
@@ -471,6 +476,43 @@ func (c *Compiler) getModuleAndReference(m, n parse.Node, targetType parse.NodeT
 	}
 
 	return targetModule, reference
+}
+
+// The features of a module are those that the module and its submodules
+// define: they share one namespace (RFC 6020 sec. 6.2.1) and are all named
+// <module-name>:<feature-name>.  Given a module or submodule, return the
+// module and the feature of that name.
+func (c *Compiler) lookupFeature(target parse.Node, name string) (parse.Node, parse.Node) {
+	modName := target.Name()
+	if target.Type() == parse.NodeSubmodule {
+		modName = target.ChildByType(parse.NodeBelongsTo).Name()
+	}
+	module, ok := c.modules[modName]
+	if !ok {
+		return target, target.LookupChild(parse.NodeFeature, name)
+	}
+	for _, feat := range moduleFeatures(module) {
+		if feat.Name() == name {
+			return module.GetModule(), feat
+		}
+	}
+	return module.GetModule(), nil
+}
+
+// The feature statements of a module and of its submodules (in name order).
+func moduleFeatures(module *parse.Module) []parse.Node {
+	var feats []parse.Node
+	feats = append(feats, module.GetModule().ChildrenByType(parse.NodeFeature)...)
+	subs := module.GetSubmodules()
+	subnames := make([]string, 0, len(subs))
+	for sn := range subs {
+		subnames = append(subnames, sn)
+	}
+	sort.Strings(subnames)
+	for _, sn := range subnames {
+		feats = append(feats, subs[sn].ChildrenByType(parse.NodeFeature)...)
+	}
+	return feats
 }
 
 // Verify a feature.
@@ -520,7 +562,7 @@ func (c *Compiler) checkFeatures() error {
 		m := module.GetModule()
 		verifOrder(2, m.Name())
 		dupChk := make(map[string]bool)
-		for _, feat := range m.ChildrenByType(parse.NodeFeature) {
+		for _, feat := range moduleFeatures(module) {
 			if _, ok := dupChk[feat.Name()]; ok {
 				// Already seen this feature
 				c.error(feat, fmt.Errorf("Duplicate feature %s in module %s", feat.Name(), m.Name()))
